@@ -616,7 +616,8 @@ def gen_cli_tree(rnd, multi=0):
                 out += "halt\n\n"
             elif c == 3:
                 out += rnd.choice(["control sortmode rowsort\n\n", "hash-threshold 2\n\n", "onlyif external\n", "skipif external\n",
-                                   "connection c1\n", "sleep 1ms\n\n", "subtest s\n\n"])
+                                   "connection c1\n", "sleep 1ms\n\n", "subtest s\n\n"] +
+                                  (["onlyif L1\n", "skipif L1\n", "onlyif L2\n", "skipif L2\nonlyif L1\n"] if multi else []))
             else:
                 hdr, sql, block = rnd.choice(pool)
                 ctr[0] += 1
@@ -796,8 +797,9 @@ def profile_cliupd(rnd, n, thorough, out):
             shutil.rmtree(cwd, ignore_errors=True)
 
 
-def multi_case(mode, tree, roots, sqls):
-    s = f"climulti {mode} 0 {hx(chr(9))} 0 0 {len(tree)}" + "".join(f" {hx(p)} {hx(c)}" for p, c in tree)
+def multi_case(mode, tree, roots, sqls, labels=()):
+    s = f"climulti {mode} 0 {hx(chr(9))} 0 {len(labels)}" + "".join(" " + hx(l) for l in labels)
+    s += f" {len(tree)}" + "".join(f" {hx(p)} {hx(c)}" for p, c in tree)
     s += f" {len(roots)}" + "".join(" " + hx(r) for r in roots)
     uniq = []
     for q in sqls:
@@ -840,11 +842,11 @@ def multi_case(mode, tree, roots, sqls):
     return s
 
 
-def run_multi(cwd, tree, roots, mode):
+def run_multi(cwd, tree, roots, mode, labels=()):
     for p, c in tree:
         os.makedirs(os.path.dirname(os.path.join(cwd, p)) or cwd, exist_ok=True)
         open(os.path.join(cwd, p), "w").write(c)
-    args = (["--override"] if mode == "override" else []) + roots
+    args = (["--override"] if mode == "override" else []) + [x for l in labels for x in ("--label", l)] + roots
     r = run_cli(cwd, args, timeout=40)
     after = []
     for p, _ in tree:
@@ -891,6 +893,7 @@ def profile_climulti(rnd, n, thorough, out):
         tree, sqls, extra = gen_cli_tree(rnd, multi=rnd.randint(1, 3))
         roots = ["root.slt"] + extra
         rnd.shuffle(roots)
+        labels = [l for l in ("L1", "L2") if rnd.random() < 0.5]
         overridden = None
         for mode in ("run", "override", "rerun"):
             # `rerun`: check mode on the overridden tree, whose expectations are (mostly) right, so that
@@ -899,14 +902,14 @@ def profile_climulti(rnd, n, thorough, out):
             if t is None:
                 continue
             cwd = fresh_dir(f"multi_{si}")
-            r, after, line = run_multi(cwd, t, roots, "override" if mode == "override" else "run")
+            r, after, line = run_multi(cwd, t, roots, "override" if mode == "override" else "run", labels)
             oracle = None
             if r.timeout:
                 oracle = f"C02|the CLI did not terminate within 40 s ({mode})"
             if mode == "override" and not r.timeout:
                 overridden = [(p, c) for (p, _), c in zip(tree, after)]
-            out.add(multi_case("override" if mode == "override" else "run", t, roots, sqls), line,
-                    f"climulti set={si} mode={mode} roots={roots}", oracle)
+            out.add(multi_case("override" if mode == "override" else "run", t, roots, sqls, labels), line,
+                    f"climulti set={si} mode={mode} roots={roots} labels={labels}", oracle)
             shutil.rmtree(cwd, ignore_errors=True)
 
 
